@@ -45,6 +45,8 @@ var c07Templates = []struct {
 	{"types.Media", func() interface{} { return types.Media{} }},
 	{"map[string][]byte", func() interface{} { return map[string][]byte{} }},
 	{"*Rec1", func() interface{} { return &gen.Rec1{} }},
+	{"Chain (embeds *Chain)", func() interface{} { return gen.Chain{} }},
+	{"[]*Chain", func() interface{} { return []*gen.Chain{} }},
 	{"chan int", func() interface{} { return (chan int)(nil) }},
 	{"func()", func() interface{} { return (func())(nil) }},
 	{"complex128", func() interface{} { return complex128(0) }},
